@@ -9,7 +9,7 @@ EXPLANATION = (
     "in_[i].wrapping_add(delta[i]) with the operand roles traced to the parameters; the None arms copy verbatim; neither uses a "
     "panicking + or -.  R2 (wire layout agreement of Delta::write_impl and Delta::read_impl): both emit/consume header, deleted "
     "keys, then per item (type id, id, [size], data); the size word is written iff object_size(type) is None and read iff "
-    "object_size(type) is None -- the same predicate on both sides; the data words are `size` many on both sides.  R3: the key "
+    "object_size(type) is None -- the same predicate on both sides; the data words are `size` many on both sides.  R2b: the type-id / id words written per item are the zero-extended upper / lower halves of the key (bit domain) and the size word is the number of data words.  R5 (reuse discipline): Delta::clear and RawSnap::clear reset every field and every function that refills an object clears it first.  R3: the key "
     "packing is a bijection (bit-provenance, shared with C10 R4).  R4: RawSnap::crc folds with wrapping_add; Delta::create_raw "
     "records a deletion exactly for keys of `from` that `to` lacks and an update for every item of `to`.  Not decided: the "
     "equality apply(A, create(A, B)) = B as such, nor agreement with the DDNet reference (value level / cross-language)."
@@ -26,6 +26,11 @@ def run(ctx, rep):
     wire_layout(prog, rep)
     C10.key_bijection(prog, rep)
     crc_and_create(prog, rep)
+    item_header_words(prog, rep)
+    from .common import reset_complete, cleared_before_fill
+    reset_complete(prog, rep, "R5-reuse-discipline", S + "Delta::clear", S + "Delta")
+    reset_complete(prog, rep, "R5-reuse-discipline", S + "RawSnap::clear", S + "RawSnap")
+    cleared_before_fill(prog, rep, "R5-reuse-discipline", S, (S + "Delta::clear", S + "RawSnap::clear"), 6)
 
 
 def _indexed_stores(body, ir):
@@ -200,3 +205,73 @@ def crc_and_create(prog, rep):
                         okc = True
     rep.ob(rule, "every item of `to` gets an update", okc and bool(ups),
            "prepare_update_item + create_item_delta run once per item yielded by to.items()", cr.loc())
+
+
+def item_header_words(prog, rep):
+    """R2b: the three words in front of an item's data in Delta::write_impl are, as functions of the item key (bit domain):
+    the key's upper 16 bits zero-extended (type id), its lower 16 bits zero-extended (id), and -- when present -- the
+    number of data *words*, i.e. the length of the slice whose elements follow"""
+    from ..bits import BitEval, Unsupported, src_bits, bit_str
+    rule = "R2b-item-header-words"
+    w = prog.one(S + "Delta::write_impl")
+    ir = IR(w)
+    be = BitEval(prog)
+    calls = []
+    for bi, t in w.calls():
+        f = t.get("callee") or ""
+        if "call_mut" in f and "write_int" in show(ir.term_operand(bi, t["args"][0])):
+            e = ir.call_expr(bi, t)
+            arg = e[2][1]
+            if arg[0] == "agg" and arg[4]:
+                arg = arg[4][0][1]
+            calls.append((bi, arg, t.get("ln")))
+
+    def is_key(e):
+        s_ = show(strip_sites(e))
+        return s_.endswith(".0") and "Iterator>::next" in s_
+
+    def leaf(e):
+        if e[0] == "call" and e[1].endswith("::i32") and "Cast" in e[1] and e[2]:
+            v = be.eval(e[2][0], {"leaf": leaf}, ir)
+            return v + [0] * (32 - len(v)) if isinstance(v, list) and len(v) <= 32 else None
+        if e[0] in ("deref", "field", "unwrapped") and is_key(e):
+            return src_bits("key", 32)
+        return None
+    words = []
+    for bi, arg, ln in calls:
+        if not any(isinstance(x, tuple) and x and is_key(x) for x in walk(arg)):
+            continue
+        if any(isinstance(x, tuple) and x and x[0] == "call" and "object_size" in show(x) for x in walk(arg)):
+            continue
+        try:
+            v = be.eval(arg, {"leaf": leaf}, ir)
+        except Unsupported as ex:
+            v = "unsupported: %s" % ex
+        words.append((bi, v, ln, show(strip_sites(arg))[:80]))
+    words.sort(key=lambda x: len(w.dom_chain(x[0])))
+    want = [("type id", [("s", "key", 16 + i) for i in range(16)] + [0] * 16),
+            ("id", [("s", "key", i) for i in range(16)] + [0] * 16)]
+    rep.floor(rule, len(words), 2, "key-derived words written by Delta::write_impl")
+    for (name, bits), (bi, v, ln, txt) in zip(want, words):
+        ok = v == bits
+        rep.ob(rule, "%s word" % name, ok,
+               "%s = %s of the key, zero-extended" % (name, "bits 16..31" if name == "type id" else "bits 0..15") if ok else
+               "the %s word is written as `%s`, which is not the zero-extended %s half of the key (ids >= 0x8000 change sign on the wire)"
+               % (name, txt, "upper" if name == "type id" else "lower"), w.loc(ln))
+    # the size word: the write in the None arm of object_size
+    size_calls = []
+    for bi, arg, ln in calls:
+        x = arg
+        while x[0] == "call" and ("Cast" in x[1] or x[1].endswith("::assert_i32") or x[1].endswith("::i32")) and x[2]:
+            x = x[2][0]
+        if x[0] == "cast":
+            x = x[3]
+        for c, rel, v_, edge, dty in ir.edge_conditions(bi):
+            if c[0] == "discr" and "object_size" in show(c) and rel == "==" and v_ == 0:
+                size_calls.append((bi, x, ln))
+    rep.floor(rule, len(size_calls), 1, "size word written in the None arm of object_size")
+    for bi, x, ln in size_calls:
+        ok = x[0] == "len"
+        rep.ob(rule, "size word counts data words", ok,
+               "size = len(data) (number of i32 words that follow)" if ok else
+               "the size word is `%s`, not the number of data words: the reader consumes a different number of ints" % show(strip_sites(x))[:80], w.loc(ln))
